@@ -177,17 +177,17 @@ Definition conjoinable_model (r1 r2 : rule) : bool :=
   else true.
 
 (** ** conjoin_rules *)
-(** [sorted(edges, key=id)]: stable; comparing an [int] id with a [str] id raises TypeError *)
+(** [sorted(edges, key=lambda edge: (isinstance(edge.id, str), edge.id))]: stable; implicit (int)
+    ids come before explicit (str) ones, ids of the same kind are compared *)
+Definition id_leb (a b : nat) : bool :=
+  if Nat.even a then (if Nat.even b then Nat.leb a b else true)
+  else (if Nat.even b then false else Nat.leb a b).
 Fixpoint insert_edge (x : edge) (l : list edge) : list edge :=
   match l with
   | [] => [x]
-  | y :: l' => if Nat.leb (e_id x) (e_id y) then x :: l else y :: insert_edge x l'
+  | y :: l' => if id_leb (e_id x) (e_id y) then x :: l else y :: insert_edge x l'
   end.
 Definition sort_edges (l : list edge) : list edge := fold_right insert_edge [] l.
-Definition mixed_ids (l : list edge) : bool :=
-  existsb (fun e => is_int_id (e_id e)) l && existsb (fun e => negb (is_int_id (e_id e))) l.
-Definition sorted_by_id (l : list edge) : result (list edge) :=
-  if mixed_ids l then Err TypeErr else Ok (sort_edges l).
 
 Definition empty_graph : graph := {| g_nodes := []; g_edges := []; g_ext := [] |}.
 Definition has_node_id (g : graph) (i : nat) : bool := existsb (fun m => Nat.eqb (n_id m) i) (g_nodes g).
@@ -195,44 +195,71 @@ Definition has_edge_id (g : graph) (i : nat) : bool := existsb (fun e => Nat.eqb
 Definition add_node (g : graph) (n : node) : result graph :=
   if has_node_id g (n_id n) then Err ValueErr
   else Ok {| g_nodes := g_nodes g ++ [n]; g_edges := g_edges g; g_ext := g_ext g |}.
-(** [for node in nodes: if node.id not in self._nodes: self.add_node(node)] *)
-Definition add_missing (g : graph) (n : node) : result graph :=
-  if has_node_id g (n_id n) then Ok g else add_node g n.
+(** [Graph._check_new_nodes]: the nodes to be added, ValueError if an id is already used by a
+    different node ([old = self._nodes.get(node.id, new.get(node.id))]) *)
+Definition find_node (i : nat) (l : list node) : option node := find (fun m => Nat.eqb (n_id m) i) l.
+Fixpoint check_new_nodes (existing new ns : list node) : result (list node) :=
+  match ns with
+  | [] => Ok new
+  | n :: ns =>
+    match (match find_node (n_id n) existing with Some o => Some o | None => find_node (n_id n) new end) with
+    | None => check_new_nodes existing (new ++ [n]) ns
+    | Some old => if node_eqb old n then check_new_nodes existing new ns else Err ValueErr
+    end
+  end.
+(** [for node in self._check_new_nodes(nodes): self.add_node(node)] *)
+Definition add_new_nodes (g : graph) (ns : list node) : result graph :=
+  new <- check_new_nodes (g_nodes g) [] ns ;; mfold add_node new g.
 Definition set_ext (g : graph) (ns : list node) : result graph :=
-  g' <- mfold add_missing ns g ;;
+  g' <- add_new_nodes g ns ;;
   Ok {| g_nodes := g_nodes g'; g_edges := g_edges g'; g_ext := ns |}.
 Definition add_edge (g : graph) (e : edge) : result graph :=
   if has_edge_id g (e_id e) then Err ValueErr
-  else g' <- mfold add_missing (e_att e) g ;;
+  else g' <- add_new_nodes g (e_att e) ;;
        Ok {| g_nodes := g_nodes g'; g_edges := g_edges g' ++ [e]; g_ext := g_ext g' |}.
-(** [Edge(label, nodes, id)] with an explicit id *)
+(** [Edge(label, nodes, id)]; the id is an explicit [str] id or [None] (then the caller supplies
+    the fresh implicit id) *)
 Definition mk_edge (lab : elabel) (ns : list node) (i : nat) : result edge :=
-  if is_int_id i then Err TypeErr
-  else if negb (nats_eqb (el_type lab) (map n_lab ns)) then Err ValueErr
+  if negb (nats_eqb (el_type lab) (map n_lab ns)) then Err ValueErr
   else Ok {| e_id := i; e_lab := lab; e_att := ns |}.
+(** the id of an edge created without id ([id(self)]): some int distinct from every id in use.
+    The harness renumbers the ids invented by the implementation, per rule and in order of
+    creation, by this very function: the least even number above [base] (an upper bound of the ids
+    of both input grammars) and above the ids of the edges already in the graph. *)
+Definition fresh_eid (base : nat) (g : graph) : nat :=
+  2 + 2 * Nat.div2 (fold_right Nat.max base (map e_id (g_edges g))).
 (** [HRGRule(lhs, rhs)] raises a bare [Exception] *)
 Definition mk_rule (lhs : elabel) (rhs : graph) : result rule :=
   if el_term lhs then Err OtherErr
   else if negb (nats_eqb (el_type lhs) (map n_lab (g_ext rhs))) then Err OtherErr
   else Ok {| r_lhs := lhs; r_rhs := rhs |}.
 
-Definition conj_nt_edge (m : ntmap) (g : graph) (p : edge * edge) : result graph :=
+(** [Edge(label=nt_map[..], nodes=edge1.nodes, id=edge1.id if isinstance(edge1.id, str) else None)] *)
+Definition conj_nt_edge (m : ntmap) (base : nat) (g : graph) (p : edge * edge) : result graph :=
   match nt_get m (e_lab (fst p), e_lab (snd p)) with
   | None => Err KeyErr
-  | Some lab => e <- mk_edge lab (e_att (fst p)) (e_id (fst p)) ;; add_edge g e
+  | Some lab =>
+    e <- mk_edge lab (e_att (fst p))
+                 (if is_int_id (e_id (fst p)) then fresh_eid base g else e_id (fst p)) ;;
+    add_edge g e
   end.
+(** [if new_rhs.has_edge_id(edge.id): edge = Edge(edge.label, edge.nodes)]; [new_rhs.add_edge(edge)] *)
+Definition add_t2_edge (base : nat) (g : graph) (e : edge) : result graph :=
+  if has_edge_id g (e_id e)
+  then e' <- mk_edge (e_lab e) (e_att e) (fresh_eid base g) ;; add_edge g e'
+  else add_edge g e.
 
-Definition conjoin_rules_model (r1 r2 : rule) (m : ntmap) : result rule :=
+Definition conjoin_rules_model (base : nat) (r1 r2 : rule) (m : ntmap) : result rule :=
   match nt_get m (r_lhs r1, r_lhs r2) with
   | None => Err KeyErr
   | Some new_lhs =>
     g0 <- mfold add_node (g_nodes (r_rhs r1)) empty_graph ;;
     g1 <- set_ext g0 (g_ext (r_rhs r1)) ;;
-    nts1 <- sorted_by_id (nt_edges (r_rhs r1)) ;;
-    nts2 <- sorted_by_id (nt_edges (r_rhs r2)) ;;
-    g2 <- mfold (conj_nt_edge m) (combine nts1 nts2) g1 ;;
-    g3 <- mfold add_edge (t_edges (r_rhs r1) ++ t_edges (r_rhs r2)) g2 ;;
-    mk_rule new_lhs g3
+    g2 <- mfold (conj_nt_edge m base)
+                (combine (sort_edges (nt_edges (r_rhs r1))) (sort_edges (nt_edges (r_rhs r2)))) g1 ;;
+    g3 <- mfold add_edge (t_edges (r_rhs r1)) g2 ;;
+    g4 <- mfold (add_t2_edge base) (t_edges (r_rhs r2)) g3 ;;
+    mk_rule new_lhs g4
   end.
 
 (** ** conjoin_hrgs *)
@@ -257,7 +284,8 @@ Fixpoint store_add {X} (s : list (elabel * list X)) (k : elabel) (x : X) : list 
 Definition trule := (rule * (nat * nat))%type.
 Record hstate := { s_nl : list nat; s_el : list elabel; s_rules : list (elabel * list trule) }.
 
-(** [HRG.add_rule] *)
+(** [HRG.add_rule]: the pre-check over [seen] (lhs, then the edge labels) followed by the
+    insertions has the same outcome as inserting one by one: ValueError or the extended table *)
 Definition add_rule_model (st : hstate) (x : trule) : result hstate :=
   let r := fst x in
   t1 <- add_elabel (s_el st) (r_lhs r) ;;
@@ -274,8 +302,15 @@ Definition cpairs (h1 h2 : hrg) : list ((nat * nat) * (rule * rule)) :=
        if conjoinable_model (snd ir1) (snd jr2) then [((fst ir1, fst jr2), (snd ir1, snd jr2))] else [])
      (indexed (all_rules h2))) (indexed (all_rules h1)).
 
-Definition conj_step (m : ntmap) (st : hstate) (p : (nat * nat) * (rule * rule)) : result hstate :=
-  r <- conjoin_rules_model (fst (snd p)) (snd (snd p)) m ;; add_rule_model st (r, fst p).
+Definition conj_step (m : ntmap) (base : nat) (st : hstate) (p : (nat * nat) * (rule * rule)) : result hstate :=
+  r <- conjoin_rules_model base (fst (snd p)) (snd (snd p)) m ;; add_rule_model st (r, fst p).
+
+(** an upper bound of all node and edge ids of the two grammars (see [fresh_eid]) *)
+Definition graph_max_id (g : graph) : nat :=
+  fold_right Nat.max (fold_right Nat.max 0 (map n_id (g_nodes g))) (map e_id (g_edges g)).
+Definition hrg_max_id (h : hrg) : nat :=
+  fold_right Nat.max 0 (map (fun r => graph_max_id (r_rhs r)) (all_rules h)).
+Definition id_bound (h1 h2 : hrg) : nat := Nat.max (hrg_max_id h1) (hrg_max_id h2).
 
 Definition tt_conflict (p : elabel * elabel) : bool := el_term (fst p) && el_term (snd p).
 
@@ -293,7 +328,7 @@ Definition conjoin_hrgs_tagged (h1 h2 : hrg) : result (elabel * hstate) :=
         (* HRG(start): the start setter *)
         if el_term s then Err ValueErr
         else
-          st <- mfold (conj_step m) (cpairs h1 h2) {| s_nl := []; s_el := [s]; s_rules := [] |} ;;
+          st <- mfold (conj_step m (id_bound h1 h2)) (cpairs h1 h2) {| s_nl := []; s_el := [s]; s_rules := [] |} ;;
           Ok (s, st)
       end
   end.
@@ -480,9 +515,42 @@ Definition has_tt_conflict (h1 h2 : hrg) : bool :=
                                       && el_term a && el_term b) (h_elabels h2)) (h_elabels h1).
 
 (** ** rules *)
-Definition find_edge (i : nat) (l : list edge) : option edge := find (fun e => Nat.eqb (e_id e) i) l.
+Fixpoint remove_first {A} (p : A -> bool) (l : list A) : option (list A) :=
+  match l with
+  | [] => None
+  | x :: l => if p x then Some l else option_map (cons x) (remove_first p l)
+  end.
+(** every element of [xs] is matched with a distinct element of [todo], and all of [todo] is used *)
+Fixpoint match_list {A B} (p : A -> B -> bool) (todo : list A) (xs : list B) : bool :=
+  match xs with
+  | [] => match todo with [] => true | _ => false end
+  | x :: xs =>
+    match remove_first (fun a => p a x) todo with
+    | None => false
+    | Some todo' => match_list p todo' xs
+    end
+  end.
 
-(** [r] is a conjunction of [r1] and [r2] under [m] (order-insensitive on nodes and edges) *)
+(** the new nonterminal edge for the shared edge [(e1, e2)]: paired label, attachment of [e1],
+    the id of [e1] if it is explicit, some implicit id otherwise *)
+Definition nt_edge_ok (m : ntmap) (p : edge * edge) (e : edge) : bool :=
+  match nt_get m (e_lab (fst p), e_lab (snd p)) with
+  | Some l => elabel_eqb (e_lab e) l
+  | None => false
+  end
+  && leqb node_eqb (e_att e) (e_att (fst p))
+  && (if is_int_id (e_id (fst p)) then is_int_id (e_id e) else Nat.eqb (e_id e) (e_id (fst p))).
+(** a terminal edge of rule 1 is kept; one of rule 2 is kept or re-created under an implicit id *)
+Definition t_edge_ok (x : bool * edge) (e : edge) : bool :=
+  if fst x then edge_eqb e (snd x)
+  else elabel_eqb (e_lab e) (e_lab (snd x)) && leqb node_eqb (e_att e) (e_att (snd x))
+       && (Nat.eqb (e_id e) (e_id (snd x)) || is_int_id (e_id e)).
+Definition t_todo (r1 r2 : rule) : list (bool * edge) :=
+  map (pair true) (t_edges (r_rhs r1)) ++ map (pair false) (t_edges (r_rhs r2)).
+
+(** [r] is a conjunction of [r1] and [r2] under [m] (order-insensitive on nodes and edges); the
+    shared nonterminal edges are the pairs of the id-sorted nonterminal edges of both rules
+    (Proofs/ConjRule.v: [shared_pairs]) *)
 Definition conj_rule_ok (r1 r2 : rule) (m : ntmap) (r : rule) : bool :=
   let g1 := r_rhs r1 in let g2 := r_rhs r2 in let g := r_rhs r in
   match nt_get m (r_lhs r1, r_lhs r2) with
@@ -492,38 +560,14 @@ Definition conj_rule_ok (r1 r2 : rule) (m : ntmap) (r : rule) : bool :=
   && set_eqb node_eqb (g_nodes g) (g_nodes g1) && set_eqb node_eqb (g_nodes g) (g_nodes g2)
   && leqb node_eqb (g_ext g) (g_ext g1) && nats_eqb (map n_id (g_ext g)) (map n_id (g_ext g2))
   (* one nonterminal edge per shared edge: paired label, shared attachment *)
-  && Nat.eqb (length (nt_edges g)) (length (nt_edges g1))
-  && Nat.eqb (length (nt_edges g)) (length (nt_edges g2))
-  && forallb (fun e =>
-        match find_edge (e_id e) (nt_edges g1), find_edge (e_id e) (nt_edges g2) with
-        | Some e1, Some e2 =>
-          leqb node_eqb (e_att e) (e_att e1) && nats_eqb (map n_id (e_att e)) (map n_id (e_att e2))
-          && match nt_get m (e_lab e1, e_lab e2) with
-             | Some l => elabel_eqb (e_lab e) l
-             | None => false
-             end
-        | _, _ => false
-        end) (nt_edges g)
+  && match_list (nt_edge_ok m) (combine (nt_sorted r1) (nt_sorted r2)) (nt_edges g)
   (* the terminal edges of both *)
-  && set_eqb edge_eqb (t_edges g) (t_edges g1 ++ t_edges g2)
-  && Nat.eqb (length (t_edges g)) (length (t_edges g1) + length (t_edges g2))
+  && match_list t_edge_ok (t_todo r1 r2) (t_edges g)
   && wf_rule_b r.
 
 (** ** grammar: every rule of [g] is the conjunction of a conjoinable pair, each pair used once *)
-Fixpoint remove_first {A} (p : A -> bool) (l : list A) : option (list A) :=
-  match l with
-  | [] => None
-  | x :: l => if p x then Some l else option_map (cons x) (remove_first p l)
-  end.
-Fixpoint match_rules (m : ntmap) (todo : list ((nat * nat) * (rule * rule))) (rs : list rule) : bool :=
-  match rs with
-  | [] => match todo with [] => true | _ => false end
-  | r :: rs =>
-    match remove_first (fun p => conj_rule_ok (fst (snd p)) (snd (snd p)) m r) todo with
-    | None => false
-    | Some todo' => match_rules m todo' rs
-    end
-  end.
+Definition match_rules (m : ntmap) (todo : list ((nat * nat) * (rule * rule))) (rs : list rule) : bool :=
+  match_list (fun p r => conj_rule_ok (fst (snd p)) (snd (snd p)) m r) todo rs.
 
 Definition conj_hrg_ok (h1 h2 : hrg) (m : ntmap) (g : hrg) : bool :=
   match nt_get m (h_start h1, h_start h2) with
@@ -532,19 +576,6 @@ Definition conj_hrg_ok (h1 h2 : hrg) (m : ntmap) (g : hrg) : bool :=
   end
   && match_rules m (cpairs h1 h2) (all_rules g)
   && wf_hrg_b g.
-
-(** ** the two defect classes of the unmodified code (notes/C17.md, known_findings.json) *)
-(** D1: some conjoinable pair of rules shares a terminal-edge id: [Graph.add_edge] raises ValueError *)
-Definition shares_terminal_id (r1 r2 : rule) : bool :=
-  existsb (fun e => existsb (fun e' => Nat.eqb (e_id e) (e_id e')) (t_edges (r_rhs r2))) (t_edges (r_rhs r1)).
-Definition defect_shared_terminal_id (h1 h2 : hrg) : bool :=
-  existsb (fun p => shares_terminal_id (fst (snd p)) (snd (snd p))) (cpairs h1 h2).
-(** D2: some conjoinable pair has a nonterminal edge with an implicit (int) id: TypeError *)
-Definition defect_int_nt_id (h1 h2 : hrg) : bool :=
-  existsb (fun p => existsb (fun e => is_int_id (e_id e)) (nt_edges (r_rhs (fst (snd p))))) (cpairs h1 h2).
-(** guard of the positive theorems *)
-Definition ids_ok (h1 h2 : hrg) : bool :=
-  negb (defect_shared_terminal_id h1 h2) && negb (defect_int_nt_id h1 h2).
 
 (** * Wire decoding and check functions *)
 (** code points travel as binary numbers ([N]) to keep the case files small *)
@@ -606,11 +637,9 @@ Definition ntp_check (x : w_hrg * w_hrg * list (w_el * w_el * w_el)) : nat :=
     error code 0 = returned normally (then the grammar is [Some]), else [err_code].
     0  ok
     1  a terminal/terminal conflict exists but no ValueError / ValueError without one (spec)
-    2  an exception although no conflict and the input is in neither defect class
+    2  an exception although there is no terminal conflict
     3  oracle [conj_hrg_ok] rejects the output grammar
     4  oracle [ntmap_ok] rejects nt_map
-    5  defect class D1 (shared terminal-edge id): ValueError
-    6  defect class D2 (implicit nonterminal-edge id): TypeError
     10 output differs from the model's although the oracles accept it
     11 the error class differs from the model's
     20 input not well-formed (harness) *)
@@ -625,19 +654,7 @@ Definition conj_check (x : w_hrg * w_hrg * list (w_el * w_el * w_el) * nat * opt
   else if negb (ntmap_ok h1 h2 m) then 4
   else match out with
        | None =>
-         if Nat.eqb code 0 then 20
-         else
-           match conjoin_hrgs_model h1 h2 with
-           | Err e =>
-             if negb (Nat.eqb (err_code e) code) then 11
-             else if Nat.eqb code 1 && defect_shared_terminal_id h1 h2 then 5
-             else if Nat.eqb code 2 && defect_int_nt_id h1 h2 then 6
-             else 2
-           | Ok _ =>
-             if Nat.eqb code 1 && defect_shared_terminal_id h1 h2 then 11
-             else if Nat.eqb code 2 && defect_int_nt_id h1 h2 then 11
-             else 2
-           end
+         if Nat.eqb code 0 then 20 else 2
        | Some g =>
          let g := d_hrg g in
          if negb (Nat.eqb code 0) then 20
